@@ -1,5 +1,5 @@
 import Pkgcore.Model.C02
-import Pkgcore.Proofs.C01
+import Pkgcore.Spec.C01
 /-!
 # C02 specification
 
